@@ -2442,32 +2442,33 @@ def convert_mean_to_depthwise_conv(op, arch, nng):
             DebugDatabase.add_optimised(op, intermediate_op)
 
         # If we have more than one convolution
-        # We use add operations to accumulate the intermediate tensors
+        # We use add operations to accumulate the intermediate tensors. The partial sums are added pairwise, level by
+        # level, so that the depth of the graph grows with the logarithm of their number (a chain of adds would be as
+        # deep as there are convolutions: up to 2048 for the largest supported reduction, beyond the recursion limit)
         if len(convs) > 1:
-            prev_add_op = None
             idx = 0
+            level = [conv.ofm for conv in convs]
+            convs = []
+            while len(level) > 1:
+                next_level = []
+                for pos in range(0, len(level) - 1, 2):
+                    intermediate_tensor = op.ofm.clone(suffix=f"_add_sum_{idx}", set_unique=True)
+                    intermediate_tensor.dtype = DataType.int32
+                    intermediate_tensor.shape = intermediate_shape
 
-            while len(convs):
-                intermediate_tensor = op.ofm.clone(suffix=f"_add_sum_{idx}", set_unique=True)
-                intermediate_tensor.dtype = DataType.int32
-                intermediate_tensor.shape = intermediate_shape
+                    one_scale_quant = QuantizationParameters(scale_f32=1.0, zero_point=0)
 
-                one_scale_quant = QuantizationParameters(scale_f32=1.0, zero_point=0)
+                    intermediate_op = create_add(f"{op.name}_add_{idx}", level[pos], level[pos + 1], one_scale_quant)
+                    intermediate_op.explicit_scaling = ExplicitScaling(False, shift=[0], multiplier=[1])
+                    intermediate_op.set_output_tensor(intermediate_tensor)
+                    intermediate_op.set_ifm_ofm_shapes()
+                    next_level.append(intermediate_tensor)
+                    idx += 1
 
-                ifm = convs.pop().ofm
-                if not prev_add_op:
-                    ifm2 = convs.pop().ofm
-                else:
-                    ifm2 = prev_add_op.ofm
-                intermediate_op = create_add(f"{op.name}_add_{idx}", ifm, ifm2, one_scale_quant)
-                intermediate_op.explicit_scaling = ExplicitScaling(False, shift=[0], multiplier=[1])
-                intermediate_op.set_output_tensor(intermediate_tensor)
-                intermediate_op.set_ifm_ofm_shapes()
-
-                prev_add_op = intermediate_op
-                idx += 1
-
-                DebugDatabase.add_optimised(op, intermediate_op)
+                    DebugDatabase.add_optimised(op, intermediate_op)
+                if len(level) % 2:
+                    next_level.append(level[-1])
+                level = next_level
 
         # Convert the original mean op to our final Mul operation
         # Which scales and divides by num_elements_in_axis
